@@ -9,6 +9,11 @@ Import ListNotations.
 Lemma source_shape_ok : gc_life_shape = true.
 Proof. reflexivity. Qed.
 
+Section Rule.
+  (* the collection threshold rule (gc->mitems = mrule gc->nitems): WHEN a collection runs is tuning;
+     everything below holds for every rule *)
+  Variable mrule : nat -> nat.
+
 (* ------------------------------------------------------------------ small facts *)
 Definition regids (s : st) : list id := map fst (reg s).
 Definition somes (l : list (option id)) : list id :=
@@ -545,9 +550,9 @@ Qed.
 (* GC_Rem (repaired) with a good finaliser *)
 Lemma gc_rem_ok fin n :
   FinOK fin n -> forall A s p, GInv A s -> measure s < n ->
-    GInv A (gc_rem true fin s p) /\ Ext s (gc_rem true fin s p) /\
-    (running s = true -> In p (regids s) \/ In p (pids s) -> done (gc_rem true fin s p) p) /\
-    Clo s (gc_rem true fin s p) /\ measure (gc_rem true fin s p) <= measure s.
+    GInv A (gc_rem mrule true fin s p) /\ Ext s (gc_rem mrule true fin s p) /\
+    (running s = true -> In p (regids s) \/ In p (pids s) -> done (gc_rem mrule true fin s p) p) /\
+    Clo s (gc_rem mrule true fin s p) /\ measure (gc_rem mrule true fin s p) <= measure s.
 Proof.
   intros HF A s p G Hm. unfold gc_rem.
   destruct (running s) eqn:Hrun; simpl negb; cbv iota.
@@ -559,13 +564,13 @@ Proof.
     assert (Hinf : info s1 p <> None) by (rewrite I1; apply (g_info _ _ G); right; exact Hp).
     destruct (HF A s1 p G1 N1 N2 F0 Hinf ltac:(lia)) as (G2 & E2 & Dn & C2 & M2).
     set (s2 := fin s1 p) in *.
-    destruct (set_mitems_ok A s2 (mitems_rule (nitems s2)) G2) as (G3 & E3 & M3).
-    assert (C23 : Clo s1 (set_mitems (mitems_rule (nitems s2)) s2)).
+    destruct (set_mitems_ok A s2 (mrule (nitems s2)) G2) as (G3 & E3 & M3).
+    assert (C23 : Clo s1 (set_mitems (mrule (nitems s2)) s2)).
     { eapply Clo_trans; [exact E2 | exact E3 | exact C2 | apply Clo_same_log; reflexivity]. }
     assert (Kr0 : forall x, In x (regids s) -> x <> p -> In x (regids s1)).
     { intros x Hx _. unfold regids. rewrite Rg1. exact Hx. }
     assert (Hreg : incl (reg s1) (reg s)) by (rewrite Rg1; apply incl_refl).
-    assert (E23 : Ext s1 (set_mitems (mitems_rule (nitems s2)) s2)) by (eapply Ext_trans; [exact E2 | exact E3]).
+    assert (E23 : Ext s1 (set_mitems (mrule (nitems s2)) s2)) by (eapply Ext_trans; [exact E2 | exact E3]).
     split; [exact G3|]. split; [|split; [intros _ _; apply (e_done _ _ E3); exact Dn| split;
       [exact (Clo_from_removed s s1 _ p R1 L1 eq_refl Kr0 K1 C23 (e_done _ _ E3 _ Dn)) | lia]]].
     exact (Ext_from_removed s s1 _ p R1 I1 T1 O1 L1 Hreg P1 Kr0 K1 eq_refl eq_refl E23 (e_done _ _ E3 _ Dn)).
@@ -576,17 +581,17 @@ Proof.
       assert (Hinf : info s1 p <> None) by (rewrite I1; apply (g_info _ _ G); left; exact Hr).
       destruct (HF A s1 p G1 N1 N2 F0 Hinf ltac:(lia)) as (G2 & E2 & Dn & C2 & M2).
       set (s2 := fin s1 p) in *.
-      destruct (set_mitems_ok A s2 (mitems_rule (nitems s2)) G2) as (G3 & E3 & M3).
-      assert (C23 : Clo s1 (set_mitems (mitems_rule (nitems s2)) s2)).
+      destruct (set_mitems_ok A s2 (mrule (nitems s2)) G2) as (G3 & E3 & M3).
+      assert (C23 : Clo s1 (set_mitems (mrule (nitems s2)) s2)).
       { eapply Clo_trans; [exact E2 | exact E3 | exact C2 | apply Clo_same_log; reflexivity]. }
       assert (Kp0 : forall x, In x (pids s) -> x <> p -> In x (pids s1)).
       { intros x Hx _. unfold pids. rewrite Pd1. exact Hx. }
       assert (Hpend : Forall2 (fun a b => a = b \/ a = None) (pend s1) (pend s)) by (rewrite Pd1; apply Forall2_refl_or).
-      assert (E23 : Ext s1 (set_mitems (mitems_rule (nitems s2)) s2)) by (eapply Ext_trans; [exact E2 | exact E3]).
+      assert (E23 : Ext s1 (set_mitems (mrule (nitems s2)) s2)) by (eapply Ext_trans; [exact E2 | exact E3]).
       split; [exact G3|]. split; [|split; [intros _ _; apply (e_done _ _ E3); exact Dn| split;
         [exact (Clo_from_removed s s1 _ p R1 L1 eq_refl K1 Kp0 C23 (e_done _ _ E3 _ Dn)) | lia]]].
       exact (Ext_from_removed s s1 _ p R1 I1 T1 O1 L1 Rg1 Hpend K1 Kp0 eq_refl eq_refl E23 (e_done _ _ E3 _ Dn)).
-    + destruct (set_mitems_ok A s (mitems_rule (nitems s)) G) as (G3 & E3 & M3).
+    + destruct (set_mitems_ok A s (mrule (nitems s)) G) as (G3 & E3 & M3).
       split; [exact G3|]. split; [exact E3|]. split; [|split; [apply Clo_same_log; reflexivity | lia]].
       intros _ [H|H].
       * apply in_reg_spec in H. congruence.
@@ -718,7 +723,7 @@ Definition dead_of (order marks : list id) (s : st) : list id :=
    once, nothing else changes hands, and the pending list is empty again afterwards *)
 Lemma sweep_ok fin n : FinOK fin n -> forall order marks A s,
   GInv A s -> pend s = [] -> measure s < n ->
-  let s' := sweep true fin order marks s in
+  let s' := sweep mrule true fin order marks s in
   GInv A s' /\ pend s' = [] /\ Ext s s' /\
   (forall x, In x (regids s) -> is_root s x = false -> ~ In x marks -> done s' x) /\ Clo s s' /\
   measure s' <= measure s.
@@ -726,7 +731,7 @@ Proof.
   intros HF order marks A s G Hpe Hm. unfold sweep. fold (dead_of order marks s).
   set (dead := dead_of order marks s).
   set (r' := filter (fun e => negb (existsb (Nat.eqb (fst e)) dead)) (reg s)).
-  set (s1 := set_mitems (mitems_rule (length r')) (set_pend (map Some dead) (set_reg r' s))).
+  set (s1 := set_mitems (mrule (length r')) (set_pend (map Some dead) (set_reg r' s))).
   destruct (arrange_spec order s (g_reg_nodup _ _ G)) as [Hand Hain].
   assert (Hdead_in : forall x, In x dead -> In x (regids s)).
   { intros x Hx. apply filter_In in Hx. apply Hain. tauto. }
@@ -804,8 +809,8 @@ Proof.
 Qed.
 
 (* ------------------------------------------------------------------ allocation inside a destructor *)
-Notation finF := (finalise true true true).
-Notation childF := (alloc_child true true).
+Notation finF := (finalise mrule true true true).
+Notation childF := (alloc_child mrule true true).
 
 Lemma phi_add_obj s c k b : fin_count s c = 0 -> phi (add_obj c k b s) = S (length (spawns s c)) + phi s.
 Proof.
@@ -955,7 +960,7 @@ Proof.
   assert (Hm1a : measure s1a < f) by lia.
   destruct (owned s o) as [p|] eqn:Hown.
   - destruct (gc_rem_ok _ _ IH (o :: A) s1a p G1a Hm1a) as (G2 & E2 & D2 & C2 & M2).
-    set (s2 := gc_rem true (finF f) s1a p) in *.
+    set (s2 := gc_rem mrule true (finF f) s1a p) in *.
     assert (E12 : Ext s1 s2) by (eapply Ext_trans; eassumption).
     assert (Hr2 : ~ In o (regids s2)) by (intros H; apply Hr1; apply (Ext_regids _ _ o E12 Hinfo1 H)).
     assert (Hp2 : ~ In o (pids s2)) by (intros H; apply Hp1; apply (Ext_pids _ _ E12); exact H).
@@ -1002,7 +1007,7 @@ Proof.
 Qed.
 
 (* the finaliser the events use computes its fuel from the state: good at every bound *)
-Notation finT := (fin_top true true true).
+Notation finT := (fin_top mrule true true true).
 Lemma fin_top_ok n : FinOK finT n.
 Proof.
   intros A s o G Hr Hp Hf Hi _. unfold fin_top.
@@ -1011,10 +1016,10 @@ Qed.
 
 
 (* ------------------------------------------------------------------ whole histories *)
-Notation stepF := (step true true true).
-Notation runF := (run true true true).
-Notation step1F := (step1 true true true).
-Notation sweepT := (sweep true finT).
+Notation stepF := (step mrule true true true).
+Notation runF := (run mrule true true true).
+Notation step1F := (step1 mrule true true true).
+Notation sweepT := (sweep mrule true finT).
 
 Record SInv (s : st) : Prop := {
   si_g : GInv [] s;
@@ -1343,7 +1348,7 @@ Proof.
     destruct (kind_of s o) as [k'|] eqn:Hk; [|apply SInv_set_bad'; exact S].
     destruct (kind_eqb k k') eqn:Hkk; [|apply SInv_set_bad'; exact S].
     assert (Hkeq : k = k') by (destruct k, k'; simpl in Hkk; congruence). subst k'.
-    assert (Rem : SInv (gc_rem true finT s o) /\ (RegAll s -> RegAll (gc_rem true finT s o))).
+    assert (Rem : SInv (gc_rem mrule true finT s o) /\ (RegAll s -> RegAll (gc_rem mrule true finT s o))).
     { destruct (running s) eqn:Hrun.
       - destruct (gc_rem_ok finT (1 + measure s) (fin_top_ok _) [] s o G ltac:(lia)) as (G' & E' & _).
         destruct (SInv_ext _ _ S G' E') as [S' R']. split; [exact S'|]. intros R. apply R'; [exact R | left; exact Hrun].
@@ -1420,7 +1425,7 @@ Lemma run_snoc h e : runF (h ++ [e]) = stepF (runF h) e.
 Proof. unfold run. rewrite fold_left_app. reflexivity. Qed.
 
 Lemma all_from_snoc c h e s :
-  all_from true true true c s (h ++ [e]) = all_from true true true c s h && c (fold_left stepF h s) e.
+  all_from mrule true true true c s (h ++ [e]) = all_from mrule true true true c s h && c (fold_left stepF h s) e.
 Proof.
   revert s. induction h as [|a h IH]; intros s; simpl.
   - rewrite andb_true_r. reflexivity.
@@ -1434,7 +1439,7 @@ Proof.
   - rewrite run_snoc. apply step_ok. exact IH.
 Qed.
 
-Lemma run_regall h : no_alloc_in_stop_window true true true h = true -> RegAll (runF h).
+Lemma run_regall h : no_alloc_in_stop_window mrule true true true h = true -> RegAll (runF h).
 Proof.
   induction h as [|e h IH] using rev_ind; intros Hc.
   - apply SInv_init.
@@ -1451,14 +1456,14 @@ Qed.
 
 Lemma all_from_weaken (c1 c2 : st -> ev -> bool) :
   (forall s e, c1 s e = true -> c2 s e = true) ->
-  forall h s, all_from true true true c1 s h = true -> all_from true true true c2 s h = true.
+  forall h s, all_from mrule true true true c1 s h = true -> all_from mrule true true true c2 s h = true.
 Proof.
   intros Hc. induction h as [|e h IH]; intros s H; simpl in *; auto.
   apply andb_true_iff in H. destruct H as [H1 H2]. rewrite (Hc _ _ H1). simpl. apply IH. exact H2.
 Qed.
 
 Lemma stop_clean_alloc_clean h :
-  no_alloc_or_del_in_stop_window true true true h = true -> no_alloc_in_stop_window true true true h = true.
+  no_alloc_or_del_in_stop_window mrule true true true h = true -> no_alloc_in_stop_window mrule true true true h = true.
 Proof. apply all_from_weaken. apply stop_ok_alloc_ok. Qed.
 
 (* ------------------------------------------------------------------ the theorems *)
@@ -1485,7 +1490,7 @@ Qed.
 
 (* T2: an explicit del / del_root (collector running) or del_raw finalises the object, once, now *)
 Theorem explicit_delete_finalises h k o :
-  no_alloc_in_stop_window true true true h = true ->
+  no_alloc_in_stop_window mrule true true true h = true ->
   torn (runF h) = false -> live (runF h) o = true -> kind_of (runF h) o = Some k ->
   (k = KRaw \/ running (runF h) = true) ->
   done (runF (h ++ [EDel k o])) o.
@@ -1518,7 +1523,7 @@ Qed.
 (* T3: teardown (thread exit, Cello_Exit) leaves no managed object behind: each one has been
    finalised exactly once, by a collection, a del, an owning Box, or now *)
 Theorem teardown_complete h order x b :
-  no_alloc_in_stop_window true true true h = true ->
+  no_alloc_in_stop_window mrule true true true h = true ->
   torn (runF h) = false -> info (runF h) x = Some (KManaged, b) ->
   done (runF (h ++ [ETeardown order])) x.
 Proof.
@@ -1539,104 +1544,43 @@ Proof.
 Qed.
 
 (* ------------------------------------------------------------------ refutations (pinned code, stop window) *)
-(* D18: the pinned GC_Rem_Ptr only clears the pending entry.  Box 1 owns object 2, both become
-   unreachable, the sweep meets the Box first: object 2 is never finalised, not even at teardown. *)
-Definition d18_history : list ev :=
-  [ENew KManaged true 1 [] []; ENew KManaged false 2 [] [1]; ELink 1 (Some 2); ECollect [1; 2] []; ETeardown []].
 
-Theorem lifecycle_d18_refuted_pinned :
-  let s := run false false true d18_history in
-  no_alloc_or_del_in_stop_window false false true d18_history = true /\ bad s = false /\ torn s = true /\
-  info s 2 = Some (KManaged, false) /\ fin_count s 2 = 0 /\ free_count s 2 = 0.
-Proof. vm_compute. repeat split; reflexivity. Qed.
 
-(* the same history on the repaired machine *)
-Example d18_history_repaired :
-  let s := runF d18_history in bad s = false /\ fin_count s 1 = 1 /\ fin_count s 2 = 1 /\ free_count s 2 = 1.
-Proof. vm_compute. repeat split; reflexivity. Qed.
 
-(* only GC_Rem_Ptr repaired, the sweep still calls the destructor before clearing the entry: a Box
-   that owns itself is finalised twice *)
-Definition selfbox_history : list ev := [ENew KManaged true 1 [] []; ELink 1 (Some 1); ECollect [] []].
 
-Theorem lifecycle_sweep_order_refuted_half_repair :
-  let s := run true false true selfbox_history in bad s = false /\ fin_count s 1 = 2 /\ free_count s 1 = 2.
-Proof. vm_compute. repeat split; reflexivity. Qed.
 
-Example selfbox_history_repaired :
-  let s := runF selfbox_history in bad s = false /\ fin_count s 1 = 1 /\ free_count s 1 = 1.
-Proof. vm_compute. repeat split; reflexivity. Qed.
 
-(* D22: the pinned GC_Set starts a collection from inside the running sweep when an allocation
-   made by a destructor crosses the threshold; the nested sweep takes over the one pending list
-   and leaves it empty.  Objects 1 and 3 each allocate two objects in their destructor; at
-   teardown the sweep meets 3 first: object 1 is never finalised. *)
-Definition d22_history : list ev :=
-  [ENew KManaged false 1 [] []; ESpawn 1 [10; 11]; ENew KManaged false 3 [] [1]; ESpawn 3 [12; 13]; ETeardown [3; 1]].
 
-Theorem lifecycle_d22_refuted_pinned :
-  let s := run true true false d22_history in
-  no_alloc_or_del_in_stop_window true true false d22_history = true /\ bad s = false /\ torn s = true /\
-  info s 1 = Some (KManaged, false) /\ fin_count s 1 = 0 /\ free_count s 1 = 0.
-Proof. vm_compute. repeat split; reflexivity. Qed.
 
-Example d22_history_repaired :
-  let s := runF d22_history in bad s = false /\ fin_count s 1 = 1 /\ fin_count s 3 = 1 /\ free_count s 1 = 1.
-Proof. vm_compute. repeat split; reflexivity. Qed.
 
-(* F2 (open finding): an object allocated in a stop window is never registered; del is a no-op
-   while stopped; the object is left behind at teardown.  The hypothesis of T2/T3 is needed. *)
-Definition stop_window_history : list ev :=
-  [EStop; ENew KManaged false 1 [] []; EDel KManaged 1; EStart; ETeardown []].
 
-Theorem lifecycle_stop_window_refuted :
-  let s := runF stop_window_history in
-  no_alloc_in_stop_window true true true stop_window_history = false /\ bad s = false /\ torn s = true /\
-  info s 1 = Some (KManaged, false) /\ fin_count s 1 = 0.
-Proof. vm_compute. repeat split; reflexivity. Qed.
 
 (* ------------------------------------------------------------------ non-vacuity *)
-(* a history with Boxes, a root, a raw object, a clean stop window and collections satisfies the
-   hypotheses of T2 and T3 *)
-Definition sample_history : list ev :=
-  [ENew KManaged true 1 [] []; ENew KManaged false 2 [] [1]; ELink 1 (Some 2);
-   ENew KRoot true 3 [] [1; 2]; ENew KManaged false 4 [] [1; 2; 3]; ELink 3 (Some 4);
-   EStop; ENew KRaw false 5 [] []; EDel KRaw 5; EStart;
-   ENew KManaged true 7 [] [1; 2; 3; 4]; ENew KManaged false 8 [] [1; 2; 3; 4; 7]; ELink 7 (Some 8);
-   ECollect [4; 7; 3; 8; 2; 1] [1; 2; 4]; ENew KManaged false 6 [] [1; 2; 4]].
 
-Example sample_history_ok :
-  let s := runF sample_history in
-  no_alloc_or_del_in_stop_window true true true sample_history = true /\
-  no_alloc_in_stop_window true true true sample_history = true /\
-  torn s = false /\ bad s = false /\ running s = true /\
-  live s 1 = true /\ kind_of s 1 = Some KManaged /\ info s 6 = Some (KManaged, false) /\
-  live s 3 = true /\ kind_of s 3 = Some KRoot /\ fin_count s 7 = 1 /\ fin_count s 8 = 1.
-Proof. vm_compute. repeat split; reflexivity. Qed.
 
 (* ------------------------------------------------------------------ the same, for switches equal to true
    (Properties_C06.v instantiates them with the values read off the C text; stated this way a
    reverted repair fails at once on `false = true` instead of sending the kernel into a long
    conversion) *)
 Lemma finalised_at_most_once_sw r w d : r = true -> w = true -> d = true -> forall h x,
-  fin_count (run r w d h) x <= 1 /\ free_count (run r w d h) x = fin_count (run r w d h) x.
+  fin_count (run mrule r w d h) x <= 1 /\ free_count (run mrule r w d h) x = fin_count (run mrule r w d h) x.
 Proof. intros -> -> ->. exact finalised_at_most_once. Qed.
 
 Lemma fuel_adequate_sw r w d : r = true -> w = true -> d = true -> forall h,
-  oof (run r w d h) = false /\ pend (run r w d h) = [].
+  oof (run mrule r w d h) = false /\ pend (run mrule r w d h) = [].
 Proof. intros -> -> ->. exact fuel_adequate. Qed.
 
 Lemma explicit_delete_finalises_sw r w d : r = true -> w = true -> d = true -> forall h k o,
-  no_alloc_in_stop_window r w d h = true ->
-  torn (run r w d h) = false -> live (run r w d h) o = true -> kind_of (run r w d h) o = Some k ->
-  (k = KRaw \/ running (run r w d h) = true) ->
-  fin_count (run r w d (h ++ [EDel k o])) o = 1 /\ free_count (run r w d (h ++ [EDel k o])) o = 1.
+  no_alloc_in_stop_window mrule r w d h = true ->
+  torn (run mrule r w d h) = false -> live (run mrule r w d h) o = true -> kind_of (run mrule r w d h) o = Some k ->
+  (k = KRaw \/ running (run mrule r w d h) = true) ->
+  fin_count (run mrule r w d (h ++ [EDel k o])) o = 1 /\ free_count (run mrule r w d (h ++ [EDel k o])) o = 1.
 Proof. intros -> -> ->. exact explicit_delete_finalises. Qed.
 
 Lemma teardown_complete_sw r w d : r = true -> w = true -> d = true -> forall h order x b,
-  no_alloc_in_stop_window r w d h = true ->
-  torn (run r w d h) = false -> info (run r w d h) x = Some (KManaged, b) ->
-  fin_count (run r w d (h ++ [ETeardown order])) x = 1 /\ free_count (run r w d (h ++ [ETeardown order])) x = 1.
+  no_alloc_in_stop_window mrule r w d h = true ->
+  torn (run mrule r w d h) = false -> info (run mrule r w d h) x = Some (KManaged, b) ->
+  fin_count (run mrule r w d (h ++ [ETeardown order])) x = 1 /\ free_count (run mrule r w d (h ++ [ETeardown order])) x = 1.
 Proof. intros -> -> ->. exact teardown_complete. Qed.
 
 (* ------------------------------------------------------------------ through an owning Box *)
@@ -1659,7 +1603,7 @@ Qed.
    del_root / del_raw of o finalises, exactly once and at once, every object reachable from o
    through ownership of registered objects *)
 Theorem delete_reaches_owned h k o x :
-  no_alloc_in_stop_window true true true h = true ->
+  no_alloc_in_stop_window mrule true true true h = true ->
   torn (runF h) = false -> live (runF h) o = true -> kind_of (runF h) o = Some k ->
   running (runF h) = true -> Reach (runF h) o x ->
   done (runF (h ++ [EDel k o])) x.
@@ -1691,19 +1635,12 @@ Proof.
 Qed.
 
 Lemma delete_reaches_owned_sw r w d : r = true -> w = true -> d = true -> forall h k o x,
-  no_alloc_in_stop_window r w d h = true ->
-  torn (run r w d h) = false -> live (run r w d h) o = true -> kind_of (run r w d h) o = Some k ->
-  running (run r w d h) = true -> Reach (run r w d h) o x ->
-  fin_count (run r w d (h ++ [EDel k o])) x = 1 /\ free_count (run r w d (h ++ [EDel k o])) x = 1.
+  no_alloc_in_stop_window mrule r w d h = true ->
+  torn (run mrule r w d h) = false -> live (run mrule r w d h) o = true -> kind_of (run mrule r w d h) o = Some k ->
+  running (run mrule r w d h) = true -> Reach (run mrule r w d h) o x ->
+  fin_count (run mrule r w d (h ++ [EDel k o])) x = 1 /\ free_count (run mrule r w d (h ++ [EDel k o])) x = 1.
 Proof. intros -> -> ->. exact delete_reaches_owned. Qed.
 
-(* non-vacuity: in sample_history the Box 1 owns object 2, both registered *)
-Example sample_reach : Reach (runF sample_history) 1 2 /\ Reach (runF sample_history) 3 4.
-Proof.
-  split.
-  - apply (reach_step _ 1 2 2); [reflexivity | vm_compute; tauto | apply reach_refl].
-  - apply (reach_step _ 3 4 4); [reflexivity | vm_compute; tauto | apply reach_refl].
-Qed.
 
 (* T5: a collection that reclaims a Box (unmarked, not a root) finalises, exactly once, everything
    the Box reaches through ownership — whatever the order in which the sweep meets owner and owned,
@@ -1725,10 +1662,10 @@ Proof.
 Qed.
 
 Lemma collect_reaches_owned_sw r w d : r = true -> w = true -> d = true -> forall h order marks b x,
-  torn (run r w d h) = false -> running (run r w d h) = true ->
-  In b (map fst (reg (run r w d h))) -> is_root (run r w d h) b = false -> ~ In b marks ->
-  Reach (run r w d h) b x ->
-  fin_count (run r w d (h ++ [ECollect order marks])) x = 1 /\ free_count (run r w d (h ++ [ECollect order marks])) x = 1.
+  torn (run mrule r w d h) = false -> running (run mrule r w d h) = true ->
+  In b (map fst (reg (run mrule r w d h))) -> is_root (run mrule r w d h) b = false -> ~ In b marks ->
+  Reach (run mrule r w d h) b x ->
+  fin_count (run mrule r w d (h ++ [ECollect order marks])) x = 1 /\ free_count (run mrule r w d (h ++ [ECollect order marks])) x = 1.
 Proof. intros -> -> ->. exact collect_reaches_owned. Qed.
 
 (* ------------------------------------------------------------------ the machine refines the specification *)
@@ -1812,7 +1749,7 @@ Lemma del_ext s k o :
   SInv s -> live s o = true -> kind_of s o = Some k ->
   let s' := match k with
             | KRaw => finT s o
-            | _ => gc_rem true finT s o
+            | _ => gc_rem mrule true finT s o
             end in
   GInv [] s' /\ Ext s s'.
 Proof.
@@ -1831,7 +1768,7 @@ Qed.
 (* the flag `bad` is never taken back (structural: no invariant needed) *)
 Definition BM (fin : st -> id -> st) : Prop := forall s o, bad s = true -> bad (fin s o) = true.
 
-Lemma bad_gc_rem r fin s p : BM fin -> bad s = true -> bad (gc_rem r fin s p) = true.
+Lemma bad_gc_rem r fin s p : BM fin -> bad s = true -> bad (gc_rem mrule r fin s p) = true.
 Proof.
   intros Hf Hb. unfold gc_rem. destruct (negb (running s)); [exact Hb|].
   destruct (in_pend s p).
@@ -1847,10 +1784,10 @@ Proof.
   apply Hf. destruct w; exact Hb.
 Qed.
 
-Lemma bad_sweep w fin order marks s : BM fin -> bad s = true -> bad (sweep w fin order marks s) = true.
+Lemma bad_sweep w fin order marks s : BM fin -> bad s = true -> bad (sweep mrule w fin order marks s) = true.
 Proof. intros Hf Hb. unfold sweep. cbn [bad set_pend]. apply bad_sweep_loop; [exact Hf | exact Hb]. Qed.
 
-Lemma bad_alloc_child w d fin s c : BM fin -> bad s = true -> bad (alloc_child w d fin s c) = true.
+Lemma bad_alloc_child w d fin s c : BM fin -> bad s = true -> bad (alloc_child mrule w d fin s c) = true.
 Proof.
   intros Hf Hb. unfold alloc_child. destruct (info s c); [reflexivity|].
   match goal with |- context [if ?c then _ else _] => destruct c end; [exact Hb|].
@@ -1859,23 +1796,23 @@ Proof.
   apply bad_sweep; [exact Hf | exact Hb].
 Qed.
 
-Lemma bad_children w d fin cs : BM fin -> forall s, bad s = true -> bad (fold_left (alloc_child w d fin) cs s) = true.
+Lemma bad_children w d fin cs : BM fin -> forall s, bad s = true -> bad (fold_left (alloc_child mrule w d fin) cs s) = true.
 Proof.
   intros Hf. induction cs as [|c cs IH]; intros s Hb; simpl; [exact Hb|].
   apply IH. apply bad_alloc_child; assumption.
 Qed.
 
-Lemma bad_finalise r w d f : BM (finalise r w d f).
+Lemma bad_finalise r w d f : BM (finalise mrule r w d f).
 Proof.
   induction f as [|f IH]; intros s o Hb; cbn [finalise]; [exact Hb|].
   cbn [bad add_log].
-  assert (H1 : bad (fold_left (alloc_child w d (finalise r w d f)) (spawns (add_log (LFin o) s) o) (add_log (LFin o) s)) = true)
+  assert (H1 : bad (fold_left (alloc_child mrule w d (finalise mrule r w d f)) (spawns (add_log (LFin o) s) o) (add_log (LFin o) s)) = true)
     by (apply bad_children; [exact IH | exact Hb]).
   match goal with |- bad (match ?x with Some _ => _ | None => _ end) = true => destruct x end; [|exact H1].
   cbn [bad set_owned]. apply bad_gc_rem; [exact IH | exact H1].
 Qed.
 
-Lemma bad_fin_top r w d : BM (fin_top r w d).
+Lemma bad_fin_top r w d : BM (fin_top mrule r w d).
 Proof. intros s o Hb. unfold fin_top. apply bad_finalise. exact Hb. Qed.
 
 Lemma step_bad_mono s e : bad s = true -> bad (stepF s e) = true.
@@ -2003,7 +1940,7 @@ Qed.
    neither the machine nor the specification flags a misuse and whose stop windows are clean, every
    object the specification demands to be finalised by now has been finalised exactly once *)
 Theorem refines_spec_sim h :
-  bad (runF h) = false -> s_bad (sp_run h) = false -> no_alloc_or_del_in_stop_window true true true h = true ->
+  bad (runF h) = false -> s_bad (sp_run h) = false -> no_alloc_or_del_in_stop_window mrule true true true h = true ->
   Sim (sp_run h) (runF h) /\ dangling (runF h) = false.
 Proof.
   induction h as [|e h IH] using rev_ind; intros Hbad Hsb Hclean.
@@ -2086,7 +2023,7 @@ Proof.
       destruct (del_ext s k o S Hlive Hk) as (G' & E').
       assert (Hs'' : s' = match k with
                           | KRaw => finT s o
-                          | _ => gc_rem true finT s o
+                          | _ => gc_rem mrule true finT s o
                           end) by (rewrite Hs'; destruct k; reflexivity).
       rewrite <- Hs'' in E', G'.
       destruct (live_spec _ _ Hlive) as [Hf0 Hinf].
@@ -2142,17 +2079,15 @@ Proof.
 Qed.
 
 Theorem refines_spec h x :
-  bad (runF h) = false -> s_bad (sp_run h) = false -> no_alloc_or_del_in_stop_window true true true h = true ->
+  bad (runF h) = false -> s_bad (sp_run h) = false -> no_alloc_or_del_in_stop_window mrule true true true h = true ->
   In x (s_must (sp_run h)) -> fin_count (runF h) x = 1 /\ free_count (runF h) x = 1.
 Proof. intros Hb Hs Hc Hx. destruct (refines_spec_sim h Hb Hs Hc) as [M _]. exact (sm_must _ _ M x Hx). Qed.
 
 Lemma refines_spec_sw r w d : r = true -> w = true -> d = true -> forall h x,
-  bad (run r w d h) = false -> s_bad (sp_run h) = false -> no_alloc_or_del_in_stop_window r w d h = true ->
-  In x (s_must (sp_run h)) -> fin_count (run r w d h) x = 1 /\ free_count (run r w d h) x = 1.
+  bad (run mrule r w d h) = false -> s_bad (sp_run h) = false -> no_alloc_or_del_in_stop_window mrule r w d h = true ->
+  In x (s_must (sp_run h)) -> fin_count (run mrule r w d h) x = 1 /\ free_count (run mrule r w d h) x = 1.
 Proof. intros -> -> ->. exact refines_spec. Qed.
 
-Example sample_spec_must : In 5 (s_must (sp_run sample_history)) /\ s_bad (sp_run sample_history) = false.
-Proof. vm_compute. split; [left; reflexivity | reflexivity]. Qed.
 
 (* ------------------------------------------------------------------ fuel adequacy of the specification's chain *)
 Lemma filter_length_lt2 {A} (f g : A -> bool) l o :
@@ -2227,19 +2162,7 @@ Proof.
   - pose proof (chain_rem_le (s_ids p) (s_live p) (s_must p)). lia.
 Qed.
 
-(* non-vacuity with allocating destructors: object 1 allocates 10 and 11 when it is deleted; both are
-   managed objects of the machine afterwards (registered), so teardown_complete speaks about them *)
-Definition alloc_history : list ev :=
-  [ENew KManaged false 1 [] []; ESpawn 1 [10; 11]; ENew KManaged true 2 [] [1]; ELink 2 (Some 1);
-   EObs [([], [2]); ([], [2])]; EDel KManaged 2].
 
-Example alloc_history_ok :
-  let s := runF alloc_history in
-  no_alloc_or_del_in_stop_window true true true alloc_history = true /\ bad s = false /\ torn s = false /\
-  fin_count s 1 = 1 /\ fin_count s 2 = 1 /\
-  info s 10 = Some (KManaged, false) /\ info s 11 = Some (KManaged, false) /\
-  fin_count (runF (alloc_history ++ [ETeardown []])) 11 = 1.
-Proof. vm_compute. repeat split; reflexivity. Qed.
 
 (* ------------------------------------------------------------------ program exit *)
 Lemma torn_after_teardown s order : torn s = false -> torn (stepF s (ETeardown order)) = true.
@@ -2252,10 +2175,10 @@ Qed.
    Exception_Error leaving only through exit(): EVERY termination route runs the teardown, once —
    every managed object allocated before has been finalised exactly once when the process is gone *)
 Theorem terminate_complete r h order x b :
-  no_alloc_in_stop_window true true true h = true ->
+  no_alloc_in_stop_window mrule true true true h = true ->
   torn (runF h) = false -> info (runF h) x = Some (KManaged, b) ->
-  done (terminate true true true true false true r order (runF h)) x /\
-  torn (terminate true true true true false true r order (runF h)) = true.
+  done (terminate mrule true true true true false true r order (runF h)) x /\
+  torn (terminate mrule true true true true false true r order (runF h)) = true.
 Proof.
   intros Hc Ht Hi. unfold terminate. rewrite andb_false_r. simpl andb. cbv iota.
   split; [|apply torn_after_teardown; exact Ht].
@@ -2263,8 +2186,8 @@ Proof.
 Qed.
 
 Theorem terminate_at_most_once ra ca ee r h order x :
-  fin_count (terminate true true true ra ca ee r order (runF h)) x <= 1 /\
-  free_count (terminate true true true ra ca ee r order (runF h)) x = fin_count (terminate true true true ra ca ee r order (runF h)) x.
+  fin_count (terminate mrule true true true ra ca ee r order (runF h)) x <= 1 /\
+  free_count (terminate mrule true true true ra ca ee r order (runF h)) x = fin_count (terminate mrule true true true ra ca ee r order (runF h)) x.
 Proof.
   unfold terminate.
   assert (H1 : forall h', fin_count (runF h') x <= 1 /\ free_count (runF h') x = fin_count (runF h') x)
@@ -2275,39 +2198,144 @@ Qed.
 
 Lemma terminate_complete_sw r1 w d ra ca ee : r1 = true -> w = true -> d = true -> ra = true -> ca = false -> ee = true ->
   forall r h order x b,
-  no_alloc_in_stop_window r1 w d h = true ->
-  torn (run r1 w d h) = false -> info (run r1 w d h) x = Some (KManaged, b) ->
-  (fin_count (terminate r1 w d ra ca ee r order (run r1 w d h)) x = 1 /\
-   free_count (terminate r1 w d ra ca ee r order (run r1 w d h)) x = 1) /\
-  torn (terminate r1 w d ra ca ee r order (run r1 w d h)) = true.
+  no_alloc_in_stop_window mrule r1 w d h = true ->
+  torn (run mrule r1 w d h) = false -> info (run mrule r1 w d h) x = Some (KManaged, b) ->
+  (fin_count (terminate mrule r1 w d ra ca ee r order (run mrule r1 w d h)) x = 1 /\
+   free_count (terminate mrule r1 w d ra ca ee r order (run mrule r1 w d h)) x = 1) /\
+  torn (terminate mrule r1 w d ra ca ee r order (run mrule r1 w d h)) = true.
 Proof. intros -> -> -> -> -> ->. exact terminate_complete. Qed.
+
+End Rule.
+
+(* ------------------------------------------------------------------ refutations and non-vacuity
+   (computed with the threshold rule of the pinned tree, Lifecycle.mitems_rule) *)
+Notation runF := (run mitems_rule true true true).
+
+(* D18: the pinned GC_Rem_Ptr only clears the pending entry.  Box 1 owns object 2, both become
+   unreachable, the sweep meets the Box first: object 2 is never finalised, not even at teardown. *)
+Definition d18_history : list ev :=
+  [ENew KManaged true 1 [] []; ENew KManaged false 2 [] [1]; ELink 1 (Some 2); ECollect [1; 2] []; ETeardown []].
+
+Theorem lifecycle_d18_refuted_pinned :
+  let s := run mitems_rule false false true d18_history in
+  no_alloc_or_del_in_stop_window mitems_rule false false true d18_history = true /\ bad s = false /\ torn s = true /\
+  info s 2 = Some (KManaged, false) /\ fin_count s 2 = 0 /\ free_count s 2 = 0.
+Proof. vm_compute. repeat split; reflexivity. Qed.
+
+(* the same history on the repaired machine *)
+Example d18_history_repaired :
+  let s := runF d18_history in bad s = false /\ fin_count s 1 = 1 /\ fin_count s 2 = 1 /\ free_count s 2 = 1.
+Proof. vm_compute. repeat split; reflexivity. Qed.
+
+(* only GC_Rem_Ptr repaired, the sweep still calls the destructor before clearing the entry: a Box
+   that owns itself is finalised twice *)
+Definition selfbox_history : list ev := [ENew KManaged true 1 [] []; ELink 1 (Some 1); ECollect [] []].
+
+Theorem lifecycle_sweep_order_refuted_half_repair :
+  let s := run mitems_rule true false true selfbox_history in bad s = false /\ fin_count s 1 = 2 /\ free_count s 1 = 2.
+Proof. vm_compute. repeat split; reflexivity. Qed.
+
+Example selfbox_history_repaired :
+  let s := runF selfbox_history in bad s = false /\ fin_count s 1 = 1 /\ free_count s 1 = 1.
+Proof. vm_compute. repeat split; reflexivity. Qed.
+
+(* D22: the pinned GC_Set starts a collection from inside the running sweep when an allocation
+   made by a destructor crosses the threshold; the nested sweep takes over the one pending list
+   and leaves it empty.  Objects 1 and 3 each allocate two objects in their destructor; at
+   teardown the sweep meets 3 first: object 1 is never finalised. *)
+Definition d22_history : list ev :=
+  [ENew KManaged false 1 [] []; ESpawn 1 [10; 11]; ENew KManaged false 3 [] [1]; ESpawn 3 [12; 13]; ETeardown [3; 1]].
+
+Theorem lifecycle_d22_refuted_pinned :
+  let s := run mitems_rule true true false d22_history in
+  no_alloc_or_del_in_stop_window mitems_rule true true false d22_history = true /\ bad s = false /\ torn s = true /\
+  info s 1 = Some (KManaged, false) /\ fin_count s 1 = 0 /\ free_count s 1 = 0.
+Proof. vm_compute. repeat split; reflexivity. Qed.
+
+Example d22_history_repaired :
+  let s := runF d22_history in bad s = false /\ fin_count s 1 = 1 /\ fin_count s 3 = 1 /\ free_count s 1 = 1.
+Proof. vm_compute. repeat split; reflexivity. Qed.
+
+(* F2 (open finding): an object allocated in a stop window is never registered; del is a no-op
+   while stopped; the object is left behind at teardown.  The hypothesis of T2/T3 is needed. *)
+Definition stop_window_history : list ev :=
+  [EStop; ENew KManaged false 1 [] []; EDel KManaged 1; EStart; ETeardown []].
+
+Theorem lifecycle_stop_window_refuted :
+  let s := runF stop_window_history in
+  no_alloc_in_stop_window mitems_rule true true true stop_window_history = false /\ bad s = false /\ torn s = true /\
+  info s 1 = Some (KManaged, false) /\ fin_count s 1 = 0.
+Proof. vm_compute. repeat split; reflexivity. Qed.
+
+(* a history with Boxes, a root, a raw object, a clean stop window and collections satisfies the
+   hypotheses of T2 and T3 *)
+Definition sample_history : list ev :=
+  [ENew KManaged true 1 [] []; ENew KManaged false 2 [] [1]; ELink 1 (Some 2);
+   ENew KRoot true 3 [] [1; 2]; ENew KManaged false 4 [] [1; 2; 3]; ELink 3 (Some 4);
+   EStop; ENew KRaw false 5 [] []; EDel KRaw 5; EStart;
+   ENew KManaged true 7 [] [1; 2; 3; 4]; ENew KManaged false 8 [] [1; 2; 3; 4; 7]; ELink 7 (Some 8);
+   ECollect [4; 7; 3; 8; 2; 1] [1; 2; 4]; ENew KManaged false 6 [] [1; 2; 4]].
+
+Example sample_history_ok :
+  let s := runF sample_history in
+  no_alloc_or_del_in_stop_window mitems_rule true true true sample_history = true /\
+  no_alloc_in_stop_window mitems_rule true true true sample_history = true /\
+  torn s = false /\ bad s = false /\ running s = true /\
+  live s 1 = true /\ kind_of s 1 = Some KManaged /\ info s 6 = Some (KManaged, false) /\
+  live s 3 = true /\ kind_of s 3 = Some KRoot /\ fin_count s 7 = 1 /\ fin_count s 8 = 1.
+Proof. vm_compute. repeat split; reflexivity. Qed.
+
+(* non-vacuity: in sample_history the Box 1 owns object 2, both registered *)
+Example sample_reach : Reach (runF sample_history) 1 2 /\ Reach (runF sample_history) 3 4.
+Proof.
+  split.
+  - apply (reach_step _ 1 2 2); [reflexivity | vm_compute; tauto | apply reach_refl].
+  - apply (reach_step _ 3 4 4); [reflexivity | vm_compute; tauto | apply reach_refl].
+Qed.
+
+Example sample_spec_must : In 5 (s_must (sp_run sample_history)) /\ s_bad (sp_run sample_history) = false.
+Proof. vm_compute. split; [left; reflexivity | reflexivity]. Qed.
+
+(* non-vacuity with allocating destructors: object 1 allocates 10 and 11 when it is deleted; both are
+   managed objects of the machine afterwards (registered), so teardown_complete speaks about them *)
+Definition alloc_history : list ev :=
+  [ENew KManaged false 1 [] []; ESpawn 1 [10; 11]; ENew KManaged true 2 [] [1]; ELink 2 (Some 1);
+   EObs [([], [2]); ([], [2])]; EDel KManaged 2].
+
+Example alloc_history_ok :
+  let s := runF alloc_history in
+  no_alloc_or_del_in_stop_window mitems_rule true true true alloc_history = true /\ bad s = false /\ torn s = false /\
+  fin_count s 1 = 1 /\ fin_count s 2 = 1 /\
+  info s 10 = Some (KManaged, false) /\ info s 11 = Some (KManaged, false) /\
+  fin_count (runF (alloc_history ++ [ETeardown []])) 11 = 1.
+Proof. vm_compute. repeat split; reflexivity. Qed.
 
 (* a wrapper that only tears down after Cello_Main has returned: a program that ends through exit()
    below main (or an uncaught throw) leaves its managed objects behind *)
 Definition exit_history : list ev := [ENew KManaged false 1 [] []; ENew KManaged true 2 [] [1]; ELink 2 (Some 1)].
 
 Theorem terminate_refuted_without_atexit :
-  let s := terminate true true true false true true RExit [] (runF exit_history) in
-  no_alloc_in_stop_window true true true exit_history = true /\ bad s = false /\ torn s = false /\
+  let s := terminate mitems_rule true true true false true true RExit [] (runF exit_history) in
+  no_alloc_in_stop_window mitems_rule true true true exit_history = true /\ bad s = false /\ torn s = false /\
   info s 1 = Some (KManaged, false) /\ fin_count s 1 = 0 /\ fin_count s 2 = 0 /\
-  fin_count (terminate true true true false true true RThrow [] (runF exit_history)) 1 = 0 /\
-  fin_count (terminate true true true false true true RReturn [] (runF exit_history)) 1 = 1.
+  fin_count (terminate mitems_rule true true true false true true RThrow [] (runF exit_history)) 1 = 0 /\
+  fin_count (terminate mitems_rule true true true false true true RReturn [] (runF exit_history)) 1 = 1.
 Proof. vm_compute. repeat split; reflexivity. Qed.
 
 (* an Exception_Error with a path that avoids exit() (_Exit, abort, ...): an uncaught exception —
    e.g. a signal turned into an exception, or any throw after one — leaves the objects behind;
    the routes that do not go through Exception_Error are fine *)
 Theorem terminate_refuted_error_without_exit :
-  let s := terminate true true true true false false RSigUncaught [] (runF exit_history) in
+  let s := terminate mitems_rule true true true true false false RSigUncaught [] (runF exit_history) in
   bad s = false /\ torn s = false /\ info s 1 = Some (KManaged, false) /\ fin_count s 1 = 0 /\ fin_count s 2 = 0 /\
-  fin_count (terminate true true true true false false RSigCaughtThrow [] (runF exit_history)) 1 = 0 /\
-  fin_count (terminate true true true true false false RSigCaughtReturn [] (runF exit_history)) 1 = 1 /\
-  fin_count (terminate true true true true false false RSigCaughtExit [] (runF exit_history)) 1 = 1.
+  fin_count (terminate mitems_rule true true true true false false RSigCaughtThrow [] (runF exit_history)) 1 = 0 /\
+  fin_count (terminate mitems_rule true true true true false false RSigCaughtReturn [] (runF exit_history)) 1 = 1 /\
+  fin_count (terminate mitems_rule true true true true false false RSigCaughtExit [] (runF exit_history)) 1 = 1.
 Proof. vm_compute. repeat split; reflexivity. Qed.
 
 Example exit_history_ok :
-  no_alloc_in_stop_window true true true exit_history = true /\ torn (runF exit_history) = false /\
+  no_alloc_in_stop_window mitems_rule true true true exit_history = true /\ torn (runF exit_history) = false /\
   info (runF exit_history) 1 = Some (KManaged, false) /\
-  fin_count (terminate true true true true false true RExit [] (runF exit_history)) 2 = 1 /\
-  fin_count (terminate true true true true false true RSigUncaught [] (runF exit_history)) 2 = 1.
+  fin_count (terminate mitems_rule true true true true false true RExit [] (runF exit_history)) 2 = 1 /\
+  fin_count (terminate mitems_rule true true true true false true RSigUncaught [] (runF exit_history)) 2 = 1.
 Proof. vm_compute. repeat split; reflexivity. Qed.
